@@ -337,6 +337,28 @@ theorem acquire_done_full_errs {s : SState} {t ctx : Nat} (hpc : s.pc t = .acqui
     snext s (.acqOk t) = none ∧ (snext s (.acqErr t)).isSome = true := by
   simp [snext, hpc, hd, hfull]
 
+/-- A parked `Acquire` returns on the cancellation of ITS OWN context, whoever else is parked: from
+any state in which `t` waits with context `ctx` on a full semaphore, "cancel `ctx`" followed by "`t`
+returns the error" is a run of the system, it leaves `t` idle, and it moves no other thread and
+no other context — no hypothesis about the other waiters (their number, their contexts, the order
+in which they arrived) is needed.  (Seeded change C17-P queued the waiters behind a mutex: only the
+head of the queue could return.) -/
+theorem acquire_own_cancel_returns {s : SState} {t ctx : Nat} (hpc : s.pc t = .acquiring ctx) :
+    ∃ s₁ s₂, snext s (.cancel ctx) = some s₁ ∧ snext s₁ (.acqErr t) = some s₂ ∧ s₂.pc t = .idle ∧
+      (∀ t', t' ≠ t → s₂.pc t' = s.pc t') ∧ (∀ c', c' ≠ ctx → s₂.done c' = s.done c') ∧ s₂.c = s.c := by
+  refine ⟨{ s with done := upd s.done ctx true },
+    { s with done := upd s.done ctx true, pc := upd s.pc t .idle }, ?_, ?_, ?_, ?_, ?_, ?_⟩
+  · simp [snext]
+  · simp [snext, hpc, upd]
+  · simp [upd]
+  · intro t' ht'; simp [upd, ht']
+  · intro c' hc'; simp [upd, hc']
+  · rfl
+
+example : ∃ s : SState, s.pc 1 = .acquiring 3 ∧ s.pc 0 = .acquiring 2 ∧ s.c = s.cap :=
+  ⟨{ SState.init 0 with pc := fun t => if t = 0 then .acquiring 2 else if t = 1 then .acquiring 3 else .idle },
+    by simp, by simp, by simp [SState.init]⟩
+
 /-- When the context is done *and* a slot is free both `select` cases are ready and Go picks
 one pseudo-randomly: the model allows both outcomes, so nothing more than
 `acquire_err_only_if_done` can be promised in that situation. -/
